@@ -12,6 +12,7 @@ import (
 	"errors"
 	"fmt"
 	"runtime/debug"
+	"sync/atomic"
 	"testing"
 	"time"
 
@@ -94,8 +95,14 @@ func runOnce(rc *kernel.RunCtx, k *kernel.Kernel) {
 	released := false
 	heldStarted := false
 
+	// ctorEntered is set by the constructor itself before its first yield
+	// (scheduler-side state lags by the notes of the current step when a run
+	// stalls); only OnStall reads it.
+	ctorEntered := make([]atomic.Bool, nKeys)
+
 	var oc *syncutil.OnceConstructor[int, any]
 	oc = syncutil.NewOnceConstructor(func(key int) any {
+		ctorEntered[key].Store(true)
 		id := k.Ask("ctor.begin", func() any {
 			count[key]++
 			k.Logf("  construct key ", kernel.Itoa(key), " #", kernel.Itoa(count[key]))
@@ -128,6 +135,35 @@ func runOnce(rc *kernel.RunCtx, k *kernel.Kernel) {
 
 		return v
 	})
+
+	// A stall (a Get waits for a mutex whose holder is parked): that is how an
+	// implementation whose waiters queue on a mutex (sync.Once) looks to a
+	// cooperative scheduler, and it says nothing against it - unless the
+	// waiting Get is for a key that nobody is constructing.
+	k.OnStall = func(info *kernel.StallInfo) *kernel.Violation {
+		if nested {
+			return nil
+		}
+		for _, id := range info.MutexBlocked {
+			t := k.TaskOfGoid(id)
+			if t == nil || t.Idx >= nTasks || inGet[t.Idx] < 0 {
+				continue
+			}
+			// Benign: the key's construction has begun and no Get of it has
+			// come back yet (the holder may be parked anywhere inside the
+			// constructor or right after it).
+			if key := inGet[t.Idx]; !ctorEntered[key].Load() || returned[key] > 0 {
+				return &kernel.Violation{
+					Class: "not-independent",
+					Site:  "OnceConstructor.Get",
+					Msg: "task " + t.Name + " waits for a lock in Get(" + kernel.Itoa(key) +
+						") although that key is not under construction (the lock is held across the construction of another key, or after the result was handed out)",
+				}
+			}
+		}
+
+		return nil
+	}
 
 	for ti := 0; ti < nTasks; ti++ {
 		ti := ti
@@ -276,6 +312,7 @@ func runSema(rc *kernel.RunCtx, k *kernel.Kernel, misuse bool) {
 	inRel := make([]bool, nTasks)
 	cancelled := make([]bool, nTasks)
 	issuedDone := make([]bool, nTasks) // Acquire issued on an already done context
+	relSinceCancel := make([]int, nTasks) // Release calls invoked since the task's context was cancelled
 	tasks := make([]*kernel.Task, nTasks)
 
 	// Contexts are created up front on the scheduler goroutine (before any
@@ -398,6 +435,9 @@ func runSema(rc *kernel.RunCtx, k *kernel.Kernel, misuse bool) {
 					case doRelease:
 						holding[ti] = false
 						inRel[ti] = true
+						for j := range relSinceCancel {
+							relSinceCancel[j]++
+						}
 					}
 
 					return op
@@ -415,6 +455,15 @@ func runSema(rc *kernel.RunCtx, k *kernel.Kernel, misuse bool) {
 						issuedDone[ti] = false
 						if err == nil {
 							k.Logf("  T", kernel.Itoa(ti), " Acquire = nil")
+							if !misuse && !wasDone && cancelled[ti] && relSinceCancel[ti] > 0 {
+								// A slot was released after the cancellation
+								// and before this Acquire came back: taking it
+								// is not excluded by the statement.
+								rc.Stats.Probe("sema-acquired-after-cancel-thanks-to-release")
+								holding[ti] = true
+
+								return
+							}
 							if !misuse && (wasDone || cancelled[ti]) {
 								k.Fail("acquire-nil-on-done-context", "ChanSemaphore.Acquire",
 									"Acquire of T"+kernel.Itoa(ti)+" returned nil although its context was done while no slot was free")
@@ -470,6 +519,14 @@ func runSema(rc *kernel.RunCtx, k *kernel.Kernel, misuse bool) {
 					ids := blockedAcquirers()
 					i := ids[tp.Choose(len(ids))]
 					cancelled[i] = true
+					// Releases that are in flight at this moment may still
+					// hand a slot over after the cancellation.
+					relSinceCancel[i] = 0
+					for _, r := range inRel {
+						if r {
+							relSinceCancel[i]++
+						}
+					}
 					rc.Stats.Fault("context-cancelled-while-blocked")
 					k.Logf("  cancel context of T", kernel.Itoa(i))
 
